@@ -35,6 +35,10 @@ static int cmp32(const uint8_t *a, const uint8_t *b) { return memcmp(a, b, 32); 
 static void sub32(uint8_t *r, const uint8_t *a, const uint8_t *b) { int br = 0; for (int i = 31; i >= 0; i--) { int d = a[i] - b[i] - br; br = d < 0; r[i] = (uint8_t)(d + (br ? 256 : 0)); } }
 static void add_small(uint8_t *r, const uint8_t *a, int k) { memcpy(r, a, 32); if (k >= 0) { int c = k; for (int i = 31; i >= 0 && c; i--) { c += r[i]; r[i] = (uint8_t)c; c >>= 8; } } else { int bw = -k; for (int i = 31; i >= 0 && bw; i--) { int d = r[i] - (bw & 0xff); bw >>= 8; if (d < 0) { d += 256; bw += 1; } r[i] = (uint8_t)d; } } }
 static uint8_t PB[32], NB[32];
+static int add32(uint8_t *r, const uint8_t *a, const uint8_t *b) { int c = 0; for (int i = 31; i >= 0; i--) { int d = a[i] + b[i] + c; c = d > 255; r[i] = (uint8_t)d; } return c; }
+/* the same G1 point written with a coordinate that is not reduced: x + p or y + p in place of x or y (possible when the sum still fits in 32 octets). The object then
+   differs from the genuine one in many bits and must be refused like any other altered object. Returns the number of variants written into out[k] (each `len` octets). */
+static int coord_aliases(const uint8_t *obj, size_t len, uint8_t out[2][700]) { int n = 0; for (size_t i = 0; i + 4 + 64 <= len; i++) if (obj[i] == 0x03 && obj[i + 1] == 0x42 && obj[i + 2] == 0x00 && obj[i + 3] == 0x04) { for (int c = 0; c < 2; c++) { uint8_t t[32]; if (add32(t, obj + i + 4 + 32 * c, PB)) continue; memcpy(out[n], obj, len); memcpy(out[n] + i + 4 + 32 * c, t, 32); n++; } break; } return n; }
 static void hexv(uint8_t *o, const char *h) { size_t l; hex_to_bytes(h, 64, o, &l); }
 static void build_alphabets(void) { hexv(PB, P_HEX); hexv(NB, N_HEX);
 	static const uint64_t L[5] = { 0, 1, 0x8000000000000000ULL, 0xffffffffffffffffULL, 0x123456789abcdef1ULL }; int nl = vh_thorough ? 5 : 4;
@@ -178,7 +182,7 @@ static void blk_pairing(void) {
 /* ---------------- schemes ---------------- */
 static const int KSI[4] = { 1, 2, 13, 8 };     /* master secrets 1, 2, N-1, GM/T example */
 static const size_t IDL[] = { 1, 2, 5, 31, 32, 33, 64, 8191 }; static const size_t ML[] = { 0, 1, 20, 55, 56, 63, 64, 65, 119, 128, 1000 };
-static uint8_t IDBUF[8192], MSGBUF[1024];
+static uint8_t IDBUF[8192], MSGBUF[1024]; static int ALIAS_SIG, ALIAS_CT;
 static void fill(void) { for (size_t i = 0; i < sizeof IDBUF; i++) IDBUF[i] = (uint8_t)('A' + (i * 7 + i / 26) % 26); memcpy(IDBUF, "Alice", 5); for (size_t i = 0; i < sizeof MSGBUF; i++) MSGBUF[i] = (uint8_t)(i * 11 + 3); memcpy(MSGBUF, "Chinese IBS standard", 20); }
 /* sm9_z256_rand_range fills the four 64-bit limbs directly from the entropy bytes (native little-endian): script the byte-reversed value */
 static void script_r(const uint8_t *be) { static __thread uint8_t le[32]; for (int i = 0; i < 32; i++) le[i] = be[31 - i]; venv_script(le, 32); }
@@ -204,6 +208,8 @@ static void blk_sign(void) {
 		if (ii <= 2 && mi <= 2 && (ri == 3 || vh_thorough)) for (size_t bit = 0; bit < sl * 8; bit++) { uint8_t t[200]; memcpy(t, sig, sl); t[bit / 8] ^= (uint8_t)(1 << (bit % 8)); vh_evals++; vh_nontriv++; if (lib_verify(&M, (const char *)IDBUF, idl, MSGBUF, ml, t, sl) == 1) vh_viol("C17:verify:bit-flipped-signature-accepted", "\"case\":\"%s\",\"bit\":%zu", cs, bit); }
 		/* bytes behind the signature: the byte string as a whole is then not a signature */
 		{ uint8_t t[260]; memcpy(t, sig, sl); static const size_t EX[] = { 1, 2, 32 }; for (int x = 0; x < 3; x++) { memset(t + sl, x ? 0x30 : 0x00, EX[x]); vh_evals++; vh_nontriv++; if (lib_verify(&M, (const char *)IDBUF, idl, MSGBUF, ml, t, sl + EX[x]) == 1) vh_viol("C17:verify:signature-with-trailing-bytes-accepted", "\"case\":\"%s\",\"extra\":%zu", cs, EX[x]); } memcpy(t + sl, sig, sl > 100 ? 100 : sl); vh_evals++; if (lib_verify(&M, (const char *)IDBUF, idl, MSGBUF, ml, t, sl + (sl > 100 ? 100 : sl)) == 1) vh_viol("C17:verify:signature-with-trailing-bytes-accepted", "\"case\":\"%s\",\"extra\":\"copy-of-itself\"", cs); if (sl > 1) { vh_evals++; if (lib_verify(&M, (const char *)IDBUF, idl, MSGBUF, ml, sig, sl - 1) == 1) vh_viol("C17:verify:truncated-signature-accepted", "\"case\":\"%s\"", cs); } }
+		/* S written with an unreduced coordinate */
+		{ static uint8_t al[2][700]; int na = coord_aliases(sig, sl, al); for (int a = 0; a < na; a++) { vh_evals++; vh_nontriv++; if (lib_verify(&M, (const char *)IDBUF, idl, MSGBUF, ml, al[a], sl) == 1) vh_viol("C17:verify:signature-with-unreduced-coordinate-accepted", "\"case\":\"%s\"", cs); } ALIAS_SIG += na; }
 		/* algebraic variants of (h,S): h+N cannot be encoded; S negated, h+1 */
 		{ SM9_SIGNATURE T = S; sm9_z256_point_neg(&T.S, &S.S); uint8_t d[200], *p = d; size_t dl = 0; sm9_signature_to_der(&T, &p, &dl); vh_evals++; if (lib_verify(&M, (const char *)IDBUF, idl, MSGBUF, ml, d, dl) == 1) vh_viol("C17:verify:negated-S-accepted", "\"case\":\"%s\"", cs); }
 	}
@@ -221,6 +227,8 @@ static void blk_enc(void) {
 		/* negatives: another identity's key, the key used under another identity string, every bit of the ciphertext */
 		{ uint8_t id2[8192]; memcpy(id2, id, idl); id2[0] ^= 2; SM9_ENC_KEY K2; if (sm9_enc_master_key_extract_key(&M, (const char *)id2, idl, &K2) == 1) { vh_evals++; vh_nontriv++; if (sm9_decrypt(&K2, (const char *)id2, idl, ct, cl, out, &ol) == 1) vh_viol("C17:enc:other-identity-key-decrypts", "\"case\":\"%s\"", cs); vh_evals++; if (sm9_decrypt(&K2, (const char *)id, idl, ct, cl, out, &ol) == 1) vh_viol("C17:enc:other-identity-key-decrypts-under-right-name", "\"case\":\"%s\"", cs); } vh_evals++; if (sm9_decrypt(&K, (const char *)id2, idl, ct, cl, out, &ol) == 1) vh_viol("C17:enc:decrypts-under-wrong-identity-string", "\"case\":\"%s\"", cs); }
 		if (ii <= 1 && pi <= 3 && (ri == 2 || vh_thorough)) for (size_t bit = 0; bit < cl * 8; bit++) { uint8_t t[600]; memcpy(t, ct, cl); t[bit / 8] ^= (uint8_t)(1 << (bit % 8)); vh_evals++; vh_nontriv++; size_t o2 = 0; if (sm9_decrypt(&K, (const char *)id, idl, t, cl, out, &o2) == 1) vh_viol("C17:enc:bit-flipped-ciphertext-accepted", "\"case\":\"%s\",\"bit\":%zu", cs, bit); }
+		/* C1 written with an unreduced coordinate */
+		{ static uint8_t al[2][700]; int na = cl <= 700 ? coord_aliases(ct, cl, al) : 0; for (int a = 0; a < na; a++) { size_t o2 = 0; vh_evals++; vh_nontriv++; if (sm9_decrypt(&K, (const char *)id, idl, al[a], cl, out, &o2) == 1) vh_viol("C17:enc:ciphertext-with-unreduced-coordinate-accepted", "\"case\":\"%s\"", cs); } ALIAS_CT += na; }
 		/* bytes behind the ciphertext, and a ciphertext cut by one byte */
 		{ uint8_t t[700]; memcpy(t, ct, cl); size_t o2 = 0; static const size_t EX[] = { 1, 16 }; for (int x = 0; x < 2; x++) { memset(t + cl, x ? 0x04 : 0x00, EX[x]); vh_evals++; vh_nontriv++; if (sm9_decrypt(&K, (const char *)id, idl, t, cl + EX[x], out, &o2) == 1) vh_viol("C17:enc:ciphertext-with-trailing-bytes-accepted", "\"case\":\"%s\",\"extra\":%zu", cs, EX[x]); } vh_evals++; if (cl > 1 && sm9_decrypt(&K, (const char *)id, idl, ct, cl - 1, out, &o2) == 1) vh_viol("C17:enc:truncated-ciphertext-accepted", "\"case\":\"%s\"", cs); }
 		/* KEM alone: several key lengths */
@@ -251,5 +259,5 @@ static void blk_keys(void) {
 }
 static void body(void) { model_start(); uint8_t pong[4]; if (mq(pong, 4, "ping") != 1) vh_harness_error("model does not answer: %s", MLINE); build_alphabets(); build_co(); build_shapes(); fill();
 	blk_fp(); blk_fp2(); blk_fp4(); blk_fp12(); blk_groups(); blk_pairing(); blk_hash(); blk_sign(); blk_enc(); blk_exch(); blk_keys();
-	printf("STAT model_queries=%llu\n", (unsigned long long)NQ); fclose(MW); int st; waitpid(MPID, &st, 0); }
+	printf("STAT model_queries=%llu x_signatures_with_unreduced_coordinate_tried=%d x_ciphertexts_with_unreduced_coordinate_tried=%d\n", (unsigned long long)NQ, ALIAS_SIG, ALIAS_CT); fclose(MW); int st; waitpid(MPID, &st, 0); }
 int main(int argc, char **argv) { vh_init(argc, argv); if (!freopen("/dev/null", "w", stderr)) {} vh_guarded("C17", body, 120); return vh_finish(); }
